@@ -4816,7 +4816,7 @@ struct gjBVal_info gjBValInfoTable[] = {
 
 	{FOAM_BVal_SFloToDFlo,   GJ_Cast, 0, "double"},
 	{FOAM_BVal_DFloToSFlo,   GJ_Cast, 0, "float"},
-	{FOAM_BVal_ByteToSInt,   GJ_Cast, 0, "int"},
+	{FOAM_BVal_ByteToSInt,   GJ_Op, JCO_OP_And, "255"},	/* XByte is unsigned, Java's byte is not */
 	{FOAM_BVal_SIntToByte,   GJ_Cast, 0, "byte"},
 	{FOAM_BVal_HIntToSInt,   GJ_Cast, 0, "int"},
 	{FOAM_BVal_SIntToHInt,   GJ_Cast, 0, "short"},
